@@ -476,7 +476,8 @@ theorem item_oneLine (it : Item) (hok : it.ok = true) : ∀ l ∈ it.lines, oneL
     subst hl
     simp only [oneLine, Bool.and_eq_true, beq_iff_eq, List.all_eq_true, Bool.not_eq_eq_eq_not, Bool.not_true]
     constructor
-    · simp
+    · have : hashes lv ++ ' ' :: t ++ ['\n'] = (hashes lv ++ ' ' :: t) ++ ['\n'] := by simp
+      rw [this, List.getLast?_append]; rfl
     · intro c hc
       have e : (hashes lv ++ ' ' :: t ++ ['\n']).dropLast = hashes lv ++ ' ' :: t := by
         rw [List.dropLast_append_of_ne_nil (by simp)]; simp
